@@ -129,6 +129,8 @@ class UnmanagedBSE(ManagedBSE):
             v = s.cfg['get_variants'][a[2]]
             name = v if isinstance(v, str) else v[0]
             L['gets'] += 1; L['cur_after_close'] = ac; L['cur_close_started'] = cs
+            # the timeout that governs this call: 'try' (never waits), None, 'zero' or 'pos'
+            L['cur_tv'] = 'try' if name in ('try_get', 'try_remove') else (s.cfg['config_timeout'] if name in ('get', 'remove') else v[1])
             if name in ('try_get', 'try_remove'):
                 s.set_op(st, t, a, 'sync_get', variant=name)
                 M.push_mir(st, th, s.U('::' + name), [Ref(proot)]); return [st]
@@ -334,6 +336,28 @@ class UnmanagedBSE(ManagedBSE):
             vio('C12', f'a get issued after close() returned reported {res[1]}, not Closed')
         if res and res[0] == 'panic' and not any(e[0] == 'panic' and e[2] == 'user' for e in st.log):
             vio('C12', 'an unmanaged pool call panicked')
+        # ---- C10 (unmanaged part): the single timeout follows the same rules as the managed pool's wait timeout
+        tL = st.threads[s.thread_of(a)].local if a[0] in ('uget', 'poll') else None
+        is_get = a[0] == 'uget' or (a[0] == 'poll' and st0 is not None and (st0.threads[a[1]].local.get('pending_variant') or ('add',))[0] != 'add')
+        if tL is not None and is_get and res:
+            tv = tL.get('cur_tv'); rt = s.cfg['runtime']
+            expired = any(e[0] == 'env' and e[1] == 'timer' and 'expired' in e for e in ev)
+            if res[0] == 'pending':
+                if tv in ('zero', 'try'): vio('C10', 'a get with a zero timeout (or try_get) is waiting for an object')
+                if tv == 'pos' and not rt: vio('C10', 'a get with a timeout but without a runtime is waiting instead of reporting NoRuntimeSpecified')
+            elif res[0] == 'err':
+                if res[1] == 'Timeout':
+                    if tv is None: vio('C10', 'a get without any timeout reported Timeout')
+                    elif tv == 'pos' and not expired: vio('C10', 'Timeout was reported although the deadline had not passed')
+                    elif tv in ('zero', 'try') and st0 is not None and not s.cfg['thread_mode'] and not st0.gget('close_started'):
+                        # an object that is not promised to an earlier waiter (the semaphore is fair) must be handed out
+                        snap0 = s.observe(st0)[1]
+                        if isinstance(snap0, dict) and isinstance(snap0.get('permits'), int) and snap0['permits'] > 0:
+                            vio('C10', f'a non-blocking get reported Timeout although {snap0["permits"]} object(s) were free in the pool')
+                elif res[1] == 'NoRuntimeSpecified' and not (tv == 'pos' and not rt):
+                    vio('C10', f'NoRuntimeSpecified reported for a get with timeout {tv} and runtime {"present" if rt else "absent"}')
+            elif res[0] == 'ok' and tv == 'pos' and not rt:
+                vio('C10', 'a get with a non-zero timeout but without a runtime yielded an object instead of NoRuntimeSpecified')
         if a[0] == 'uadd' and res:
             v = s.cfg['add_variants'][a[2]]
             n_resp = s.n_responsible(st0) if st0 is not None else 0
